@@ -211,6 +211,10 @@ impl Ctx {
             println!("KNOWN-FINDING: property={} key={} occurrences={} {}", self.id, k, n, text);
         }
         let viol = self.viol_total.load(Ordering::Relaxed);
+        if self.samples.lock().unwrap().is_empty() && !self.replay_mode {
+            eprintln!("MACHINERY: the check recorded no sample case (evidence would be invalid)");
+            return 3;
+        }
         let mut cov = Map::new();
         cov.insert("evaluations".into(), json!(self.evals.load(Ordering::Relaxed)));
         cov.insert("distinct_nontrivial".into(), json!(self.nontrivial.load(Ordering::Relaxed)));
